@@ -6,7 +6,7 @@ Write = namedtuple("Write", "step byte lf idx")          # accepted output byte;
 Refused = namedtuple("Refused", "step byte rv")
 Handler = namedtuple("Handler", "step fsm ci kind seen size args max flags after code lf")
 VarCb = namedtuple("VarCb", "step ci vi kind size ret lf")
-Api = namedtuple("Api", "step name args result lf")
+Api = namedtuple("Api", "step name args result lf insvc")
 Mem = namedtuple("Mem", "step region ci vi data lf")
 Bracket = namedtuple("Bracket", "step api result changed before_lock after_unlock")
 
@@ -64,13 +64,13 @@ class Trace:
                 r = Refused(int(t[1]), int(t[2], 16), int(t[3]))
                 self.refused.append(r)
                 ev.append(("w", r))
-            elif k == "A":
+            elif k == "A" or k == "a":
                 name = t[2]
                 if name == "poke":
-                    r = Api(int(t[1]), name, (int(t[3]), int(t[4]), _unhex(t[5])), 0, lf)
+                    r = Api(int(t[1]), name, (int(t[3]), int(t[4]), _unhex(t[5])), 0, lf, k == "a")
                 else:
                     vals = [int(x) for x in t[3:]]
-                    r = Api(int(t[1]), name, tuple(vals[:-1]), vals[-1], lf)
+                    r = Api(int(t[1]), name, tuple(vals[:-1]), vals[-1], lf, k == "a")
                 self.apis.append(r)
                 ev.append(("A", r))
             elif k == "S":
